@@ -97,6 +97,10 @@ def judge(case):
     case_classes(case, v)
     srcs = to_build_sources(case)
     refs = [Ref(s["svg"], cfg) for s in srcs]
+    if max([rf.max_coord() for rf in refs] + [0.0]) > c01.DOMAIN_COORD:
+        # outside what OpenType outlines can express at all (glyf stores int16 *deltas*: an extent > 32767 cannot be encoded)
+        v.discard = "reference geometry beyond %d font units" % c01.DOMAIN_COORD
+        return v
     r = build.build_font(cfg, srcs)
     if r.error is not None:
         if isinstance(r.error, ValueError) and "already maps to" in str(r.error) and "colr_0" in fmt:
@@ -154,6 +158,10 @@ def judge(case):
                     continue
                 for k, (a, b) in enumerate(zip(impl, ref_leaves)):
                     tau = base_tau.tau(norms[k])
+                    if not a.contours or not b.contours:
+                        bb_ = bbox(a.contours or b.contours)
+                        if bb_ is None or max(bb_[2] - bb_[0], bb_[3] - bb_[1]) <= 2 * tau:
+                            continue  # collapsed under quantisation (smaller than the tolerance)
                     d = hausdorff(a.contours, b.contours, good=tau * 0.05)
                     v.margin = max(v.margin, min(d / tau, 50.0))
                     if d > tau:
@@ -173,8 +181,8 @@ def judge(case):
                 base = exact_bounds(_contours_of(font, gs, gname))
                 for k, a in enumerate(impl):
                     lb = a.bounds
-                    if lb is None:
-                        continue
+                    if lb is None or lb[2] - lb[0] <= 0 or lb[3] - lb[1] <= 0:
+                        continue  # a layer that collapsed to a point or a line paints nothing
                     e = (0.71 + 0.001 * cfg["upem"]) * max(1.0, norms[k]) + 1.0  # C05's allowance for a compiled, transformed outline
                     if base is None or lb[0] < base[0] - e or lb[1] < base[1] - e or lb[2] > base[2] + e or lb[3] > base[3] + e:
                         v.fail("base-bounds", "base glyph bounds do not cover a layer", {"source": i, "layer": k, "base": base, "layer_bounds": lb})
